@@ -110,6 +110,8 @@ class InMemorySemantivaTransport(SemantivaTransport):
             lambda: (deque(), threading.Lock())
         )
         self._connected = False
+        # guards lazy creation of a channel's (deque, lock) pair
+        self._queues_lock = threading.Lock()
 
     def connect(self) -> None:
         """
@@ -148,7 +150,8 @@ class InMemorySemantivaTransport(SemantivaTransport):
         Returns:
             Future if require_ack=True, else None.
         """
-        q, lock = self._queues[channel]
+        with self._queues_lock:
+            q, lock = self._queues[channel]
         msg = Message(
             data=data,
             context=context,
